@@ -17,6 +17,7 @@ from fractions import Fraction
 import numpy as np
 
 from harness.core import exc_class
+from harness.props import c15_csvtext
 
 FIELDS = ['bootstrapping_probability', 'avg_correlation', 'aggregate_probability', 'directly_assigned']
 RUN_KINDS = ['runner_up_assignment', 'runner_up_correlation', 'runner_up_probability']
@@ -909,6 +910,7 @@ def run(ctx):
     blob_cases(ctx)
     reorder_cases(ctx)
     tree_cases(ctx)
+    c15_csvtext.run_part(ctx)
     # (ii) the three files of real mapping runs (hierarchical, flattened, with a dropped level): the HDF5 output read
     # back and the CSV tell the JSON's story, the embedded taxonomy is the stored taxonomy without its cells
     from harness import mapcheck
